@@ -25,6 +25,9 @@ def toy_tables(ctx, uni, g, thorough):
             if thorough or a % 3 == hi % 3:
                 t.raw(pure.ev_mul_row(uni, g, a, how, -q, 2 * q))
             t.raw(pure.ev_eq_row(uni, g, a, how, how2))
+            if a % 4 == hi % 4:       # scalars far outside [-q, 2q]
+                for n in (5 * q + 3, -7 * q - 2, 2 ** 70, -(2 ** 65) + a, q * q):
+                    t.raw(pure.ev_op(uni, g, "mul", a, n=n, how=how))
             ev = pure.ev_neg_row(uni, g, a, how)
             if ev is not None and (thorough or a % 2 == 0):
                 t.raw(ev)
@@ -37,7 +40,8 @@ def full_size(ctx, uni, g, thorough):
     q = G.order()
     t = []
     rnd = lambda: ctx.rng.randrange(1, q)
-    edge = [0, 1, -1, q - 1, q, q + 1, (q - 1) // 2, (q + 1) // 2, 2, 2 ** 16, 2 ** 100, 2 ** 200 % (10 * q), -(2 ** 77), 3 * q + 5]
+    edge = [0, 1, -1, q - 1, q, q + 1, (q - 1) // 2, (q + 1) // 2, 2, 2 ** 16, 2 ** 100, 2 ** 200 % (10 * q), -(2 ** 77), 3 * q + 5,
+            2 ** 300 + 1, -(2 ** 300) - 7, q * q, -q * q + 1, 2 * q, -q, -2 * q, 5 * q, 2 ** 255, 2 ** 256 - 1, 2 ** 4096 + 3]
     evs = []
     k1, k2 = rnd(), rnd()
     for how in (["mul", "dec", "addzero", "zeroadd", "sum"] if thorough else ["dec", "addzero"]):
@@ -50,7 +54,7 @@ def full_size(ctx, uni, g, thorough):
             evs += [pure.ev_op(uni, g, "neg", k1, how=how), pure.ev_op(uni, g, "neg", 0, how=how),
                     pure.ev_op(uni, g, "sub", k1, k2, how=how), pure.ev_op(uni, g, "sub", k1, k1, how=how)]
         evs += [pure.ev_op(uni, g, "eq", k1, k1, how=how), pure.ev_op(uni, g, "eq", k1, k2, how=how)]
-    for n in (edge if thorough else edge[:9] + edge[-2:]):
+    for n in (edge if thorough else edge[:9] + edge[12:14] + [edge[14 + ctx.seed % 10], edge[-1]]):
         evs.append(pure.ev_op(uni, g, "mul", k2, n=n, how="dec"))
     evs.append(pure.ev_op(uni, g, "mul", 0, n=5, how="mul"))
     for i in range(16 if thorough else 2):
